@@ -211,7 +211,8 @@ class Check(PropertyCheck):
                   "without side condition. Read-back: parseIp_dotted / parseIp_mapped prove that the parser model reads the OS' "
                   "text forms `a.b.c.d` and `::ffff:a.b.c.d` back as the address for all a,b,c,d < 256, so "
                   "canonical_forms_equal_plain (plain = %zone = mapped = mapped%zone, no parse hypotheses) and "
-                  "dotted_refused_iff (closed form of the verdict for every dotted quad) follow. The "
+                  "dotted_refused_iff (closed form of the verdict for every dotted quad) follow; parseIp_mappedHex / "
+                  "hex_mapped_form_equal_plain do the same for the hexadecimal mapped form `::ffff:xxxx:yyyy`. The "
                   "mode exemption is the isinstance walk over the class hierarchy of mode_specs regenerated on every run "
                   "(only_local_mode_exempt: among all registered mode classes exactly LocalMode is exempt). Class facts "
                   "(loopback_exact4/6, rfc1918_private, shared_space_neither, classes_exclusive4/6, public samples) by the "
@@ -225,8 +226,9 @@ class Check(PropertyCheck):
                   "as n / 2^k * 2^k == network. The classification itself is the standard library's (e.g. 192.0.0.8-192.0.0.169 "
                   "and 64:ff9b:1::/48 count as global in 3.12.1). The text parser model is tied differentially, not proved "
                   "against a grammar; what is proved about it: value bounds for every accepted text, and read-back of the two "
-                  "IPv4 text forms inet_ntop produces (the Lean renderers dotted / mappedText are tied to socket.inet_ntop by the "
-                  "`cls` cases). For other notations (hex mapped form, exploded / compressed IPv6, upper case) "
+                  "IPv4 text forms inet_ntop produces and of the hexadecimal mapped form (the Lean renderers dotted / mappedText / "
+                  "mappedHexText are tied to socket.inet_ntop resp. str(IPv6Address) by the `cls` cases). For other notations "
+                  "(exploded / compressed non-mapped IPv6, upper case, full `0:0:0:0:0:ffff:` prefix) "
                   "mapped_scoped_equal_plain keeps its parse hypotheses and the differential tie carries them. handle_client is modelled only around "
                   "the client_connected hook (layer execution is C09's subject). Abstentions: the oracle says nothing about "
                   "peer texts that denote no address (the hook raises, AddonManager logs it, the connection proceeds: "
